@@ -1,9 +1,43 @@
-//! C08 sessions (seeded driver). Fill in.
+//! C08 sessions: Duration round / total / compare relative to a plain date; PlainDate / PlainDateTime until/since with a
+//! calendar smallest unit (the same re-measure / nudge / bubble machinery).
 use super::Tracer;
 use crate::gen::*;
 use crate::rng::Rng;
-use serde_json::json;
+use serde_json::{json, Value};
+
+const UNITS: [&str; 10] = ["nanosecond", "microsecond", "millisecond", "second", "minute", "hour", "day", "week", "month", "year"];
+fn mixed_dur(r: &mut Rng) -> Value {
+    let sg: i128 = if r.chance(1, 2) { 1 } else { -1 };
+    let m = |r: &mut Rng, hi: i64| -> i128 { if r.chance(1, 2) { 0 } else { r.range(0, hi) as i128 } };
+    dur10(sg * m(r, 3), sg * m(r, 30), sg * m(r, 9), sg * m(r, 400), sg * m(r, 50), sg * m(r, 100), sg * m(r, 5000), 0, 0, sg * m(r, 1_999_999_999))
+}
+fn opts(r: &mut Rng) -> Value {
+    let si = r.range(0, 9) as usize; let li = r.range(si as i64, 9) as usize;
+    let sm = UNITS[si]; let lg = UNITS[li];
+    let inc = match sm { "hour" | "minute" | "second" | "millisecond" | "microsecond" | "nanosecond" => *r.pick(&time_incs(sm)), _ => *r.pick(&[1i64, 1, 1, 2, 3, 5, 7, 10]) };
+    json!({"largest": lg, "smallest": sm, "inc": inc, "mode": *r.pick(&MODES)})
+}
+fn rel_day(r: &mut Rng) -> i64 { match r.range(0, 3) { 0 => r.range(-40_000, 40_000), 1 => r.range(-700_000, 700_000), _ => any_day(r).clamp(MIN_DAY + 400_000, MAX_DAY - 400_000) } }
 
 pub fn drive(t: &mut Tracer, r: &mut Rng, n: usize) {
-    let _ = (t, r, n);
+    while t.n < n {
+        let rel = date_json(rel_day(r));
+        match r.range(0, 9) {
+            0..=3 => { t.call("Duration.round", json!({"recv": mixed_dur(r), "rel": rel, "st": opts(r)})); }
+            4 | 5 => { t.call("Duration.total", json!({"recv": mixed_dur(r), "rel": rel, "unit": *r.pick(&UNITS)})); }
+            6 => { let a = mixed_dur(r); let b = if r.chance(1, 4) { a.clone() } else { mixed_dur(r) };
+                   t.call("Duration.compare", json!({"recv": a.clone(), "other": b.clone(), "rel": rel.clone()})); t.call("Duration.compare", json!({"recv": b, "other": a, "rel": rel})); }
+            7 | 8 => { // PlainDate until/since with a calendar (or day, increment > 1) smallest unit
+                let a = rel_day(r); let b = a + match r.range(0, 2) { 0 => r.range(-60, 60), 1 => r.range(-800, 800), _ => r.range(-40_000, 40_000) };
+                let si = r.range(6, 9) as usize; let li = r.range(si as i64, 9) as usize;
+                let st = json!({"largest": UNITS[li], "smallest": UNITS[si], "inc": *r.pick(&[1i64, 1, 2, 3, 5]), "mode": *r.pick(&MODES)});
+                t.call(if r.chance(1, 2) { "PlainDate.until" } else { "PlainDate.since" }, json!({"recv": date_json(a), "other": date_json(b), "st": st})); }
+            _ => { // PlainDateTime until/since with rounding
+                let a = rel_day(r); let b = a + r.range(-500, 500);
+                let dt = |day: i64, tns: i128| { let (y, m, d) = civil(day); let tj = time_json(tns); json!({"y": y, "m": m, "d": d, "h": tj["h"], "mi": tj["mi"], "s": tj["s"], "ms": tj["ms"], "us": tj["us"], "ns": tj["ns"]}) };
+                t.call(if r.chance(1, 2) { "PlainDateTime.until" } else { "PlainDateTime.since" },
+                       json!({"recv": dt(a, r.range128(0, DAY_NS - 1)), "other": dt(b, r.range128(0, DAY_NS - 1)), "st": opts(r)})); }
+        }
+        t.reset();
+    }
 }
